@@ -24,7 +24,7 @@ def install_newpublickey_stub(m):
             return (X.NILPTR, make_error(m, 'invalid public key'))
         ok = tm.uf('sec1_valid_nonidentity_%d' % n, [tm.lift(cat_bytes(el), 8 * n)], 0)
         if m.ctx.branch(ok):
-            o = m.new_obj(None, tree=[[], X.NILPTR, m.new_byte_slice(list(el), 'pointBytes')], label='PublicKey')
+            o = m.new_obj(None, tree=[('stub-public-key', m.new_byte_slice(list(el), 'pointBytes'))], label='PublicKey(stub)')
             return (X.Ptr(o, ()), None)
         return (X.NILPTR, make_error(m, 'invalid public key'))
     m.npk_calls = []
@@ -256,7 +256,7 @@ def main():
                     ctx.check(spec, 'accepted-implies-grammar')
                     if L == len(hdr) + ptlen:
                         ctx.check(tm.eq(B[len(hdr) - 1], 0, 8), 'accepted-implies-no-unused-bits')
-                        kb = m.slice_elems(m.load(key)[2])
+                        kb = m.slice_elems(key.obj.tree[0][1])
                         ctx.check(tm.eq(cat_bytes(kb), cat_bytes(pt), 8 * ptlen), 'decoded-point-bytes-are-the-input-bytes')
                     return 'accept'
                 ctx.check(tm.bnot(spec), 'rejected-implies-not-grammar')
